@@ -41,6 +41,22 @@ def has_date_part_argument(s):
     return False
 
 
+def duplicate_output_names(stmt):
+    """some select block (derived table, CTE body, set-operation branch, or the top query) gives two items the same output name"""
+    for n in gensql._walk(stmt):
+        if isinstance(n, list) and len(n) == 7 and n[0] == "select":
+            names = []
+            for it in n[2]:
+                if isinstance(it, list) and len(it) == 3:
+                    e, alias = it[0], it[1]
+                    nm = alias if alias else (e[2] if isinstance(e, list) and len(e) == 3 and e[0] == "col" else None)
+                    if nm:
+                        names.append(str(nm).lower())
+            if len(set(names)) != len(names):
+                return True
+    return False
+
+
 def late_evidence_explains(stmt, spec_pairs, impl_pairs):
     """the only difference: sources the specification leaves UNRESOLVED (bare column name) are attributed by the implementation to a
     table, and that column name is referenced in at least two query blocks of the statement (the graph then holds `table.name` from the
@@ -309,7 +325,11 @@ def run(chk):
         lspec = ans1[ci]["spec"][0].get("colflow")
         if lspec is not None and isinstance(ip, list):
             st.c["spec-covered"] += 1
-            if sorted(map(tuple, lspec)) != sorted(map(tuple, pairs_of(ip))) and late_evidence_explains(s, lspec, pairs_of(ip)):
+            if sorted(map(tuple, lspec)) != sorted(map(tuple, pairs_of(ip))) and duplicate_output_names(s):
+                # a nested query block names two of its output columns alike: a reference to that name is ambiguous (invalid SQL),
+                # nothing is legislated
+                st.c["spec-not-covered:duplicate-output-names"] += 1
+            elif sorted(map(tuple, lspec)) != sorted(map(tuple, pairs_of(ip))) and late_evidence_explains(s, lspec, pairs_of(ip)):
                 # not legislated either way (see reference_pairs): a column the specification leaves unresolved is resolved by the
                 # assembler because ANOTHER query block of the statement visibly reads a column of that name from a candidate
                 st.c["spec-not-covered:late-evidence"] += 1
